@@ -414,6 +414,9 @@ func processOne(s *scratch, spec *propSpec, b budget, bin, sig string, cands []s
 		f := cands[0]
 		rf, _ := detsim.ReadReplay(f)
 		isRace := rf.Violation.Class == "race"
+		// a disagreement between the long-lived reference process and a young one depends on what the long-lived one has
+		// evaluated before, i.e. on the preceding runs of the worker: like a state-dependent race it may need them as warm-up
+		stateDep := rf.Violation.Class == "reference-unstable"
 		raceEnv := func(tag string) []string {
 			if !b.race {
 				return nil
@@ -431,7 +434,7 @@ func processOne(s *scratch, spec *propSpec, b budget, bin, sig string, cands []s
 			tried++
 			if strings.Contains(out, "same_class=true") && (code == 1 || code == 66) {
 				hits++
-			} else if !isRace && (strings.Contains(out, "same_loghash=true") || (code == 0 && strings.Contains(out, "loghash="+rf.EventLogHash))) {
+			} else if !isRace && !stateDep && (strings.Contains(out, "same_loghash=true") || (code == 0 && strings.Contains(out, "loghash="+rf.EventLogHash))) {
 				// the same execution (same event log and results) without the violation: the oracle itself is not a function of the run
 				sameLogNoViolation = true
 				break
@@ -442,7 +445,7 @@ func processOne(s *scratch, spec *propSpec, b budget, bin, sig string, cands []s
 		}
 		note := fmt.Sprintf("confirmed in a fresh process (attempt %d)", tried)
 		warmed := false
-		if hits == 0 && isRace && !sameLogNoViolation {
+		if hits == 0 && (isRace || stateDep) && !sameLogNoViolation {
 			// a race that depends on what earlier runs of the worker left in package-level tables or std-internal pools:
 			// re-execute those runs first, in the same process
 			out, code := runTool(bin, raceEnv("warm"), "replay", "-warmup", f)
@@ -464,7 +467,9 @@ func processOne(s *scratch, spec *propSpec, b budget, bin, sig string, cands []s
 			if sameLogNoViolation {
 				return confirmed{}, fmt.Errorf("violation %s from %s: a fresh process reproduced the same event log but not the violation - the harness's oracle is nondeterministic, refusing to report:\n%s", sig, f, lastOut)
 			}
-			if isRace {
+			if stateDep {
+				note = fmt.Sprintf("the two reference processes disagreed in the batch run; %d fresh-process replays and a warm-up replay did not bring the long-lived one into the same state; reported from the batch run", tried)
+			} else if isRace {
 				note = fmt.Sprintf("race report did not recur in %d fresh-process replays (std-internal pools can mask it, DESIGN 2.3); reported from the batch run", tried)
 			} else {
 				note = fmt.Sprintf("observed in the batch run by a per-execution oracle, but %d fresh-process replays took a different execution (event log differs): the code under test is nondeterministic beyond the simulator's seams; the replay file reproduces the plan and schedule, not necessarily the violation", tried)
